@@ -770,6 +770,7 @@ def rig_spec(rng):
         o['rule_timestep'] = min(o['rule_timestep'], o['report_timestep'])      # see common_spec
     for t in spec['tanks']:
         t['diameter'] = 30.0
+    o['pattern_interpolation'] = False      # a WNTRSimulator-only option, not a common feature (see common_spec)
     ctrlgen.add_random_controls(spec, rng, n=(1, 1), kinds=('rule_setting', 'rule_setting', 'setting'), offgrid=0.3)     # one source of setting changes per valve: equal-priority conflicts are undefined
     return spec
 
